@@ -48,6 +48,39 @@ def cpp_bounded(run, prop, direction, args):
             shutil.rmtree(work, ignore_errors=True)
 
 
+def py_bounded(run, prop, direction, args):
+    """Python leg: the codecs are NOT under contract.  Bounded stand-in (never counted as proved): the generated Python
+    (de)serializers of every corpus type, executed in the overlay interpreter (NumPy from the offline wheelhouse), against
+    the independent reference codec of contracts/pp_ref.py."""
+    import pathlib
+    import tempfile
+    import pydsdl
+    from contracts import py_leg
+    from vk import render
+    n_cases = 200 if args.tier != "thorough" else 2000
+    work = pathlib.Path(tempfile.mkdtemp(prefix="vk_py_"))
+    try:
+        render.render_types("py", PP.CORPUS / "vk", work, {})
+        types = sorted(PP.flatten_types(pydsdl.read_namespace(str(PP.CORPUS / "vk"), [])), key=str)
+        for d in direction:
+            try:
+                bad, total, err = py_leg.witness_py(types, work, d, n_cases)
+            except Exception as ex:  # the stand-in could not run: undecided, never a violation
+                run.undecide(f"Python harness ({d}): {type(ex).__name__}: {str(ex)[:300]}")
+                continue
+            if err:
+                run.undecide(f"Python harness ({d}): {err[:400]}")
+                continue
+            run.add_bounded(f"native [py]: generated Python {'serializers' if d == 'ser' else 'deserializers'} == reference codec (CPython 3.12 + NumPy)",
+                            f"{len(types)} corpus types x {n_cases} inputs (boundary + pseudo-random objects / byte strings incl. truncations, bit flips, fragmented input)",
+                            total, not bad, "" if not bad else f"{bad[0][0]}: {str(bad[0][1]['input'])[:200]}: {bad[0][1]['why'][:300]}")
+            for t, w in bad:
+                run.fail(report.Failure(f"native[py]:{t}#{'serialize' if d == 'ser' else 'deserialize'}-python-agrees-with-the-specification", "post",
+                                        f"generated Python for {t}: {str(w['input'])[:300]}: {w['why'][:500]}", {"witness": w}, True))
+    finally:
+        shutil.rmtree(work, ignore_errors=True)
+
+
 def main(prop=PROP, direction=("ser",), kinds=KINDS, title="serializers", extra=None):
     args = parse_args(prop)
     run = report.Run(prop, "proof", f"./check {prop}", args.tier)
@@ -68,6 +101,8 @@ def main(prop=PROP, direction=("ser",), kinds=KINDS, title="serializers", extra=
         PP.report_failures(run, res, label)
         shutil.rmtree(PP._STATE.get("workdir", "/nonexistent"), ignore_errors=True)
     cpp_bounded(run, prop, direction, args)
+    if prop in ("C01", "C02"):
+        py_bounded(run, prop, direction, args)
     PP.template_error_guards(run, tuple(t for d, t in (("ser", "serialization.j2"), ("des", "deserialization.j2")) if d in direction))
     if extra is not None:
         extra(run)
@@ -77,7 +112,7 @@ def main(prop=PROP, direction=("ser",), kinds=KINDS, title="serializers", extra=
               "contracts of the support library functions (proved separately under C14)")
     run.assume("per program: proved for all values/contents of each corpus program; the programs (DSDL types) are a fixed corpus written to cover every template branch it can (corpus/vk)",
                "struct members are bound to DSDL fields by position; C bool objects hold 0 or 1; union members are disjoint objects",
-               "the C++ and Python targets are not under contract here; the C++ codecs are covered by a bounded differential stand-in only")
+               "the C++ and Python codecs are not under contract here; both are covered by bounded differential stand-ins only (generated code executed against an independent reference codec)")
     run.explanation = (f"generated C {title} of {len(run.notes.get('programs', {}).get(variants[0][0], []))} corpus types, every array-length/union-tag shape and null-argument variant, "
                        "executed symbolically against contracts derived from the wire specification")
     return run.finish()
